@@ -22,7 +22,7 @@ func structuralProfile(c *core.Ctx) *sgen.Profile {
 		MaxDepth: 3, MinProps: 2, MaxProps: 7, MinDefs: 1, MaxDefs: 3, ArrayDepth: 2,
 		WString: 4, WInteger: 3, WNumber: 3, WBoolean: 2, WObject: 5, WArray: 4, WRef: 4, WEnum: 1, WAllOf: 2, WAnyOf: 2, WMap: 1, WAny: 1,
 		PConstraint: 0.3, PNullable: 0.25, PRequired: 0.5, PFormat: 0.2, PAdditional: 0.25,
-		Avoid: c.Avoid, Excluded: c.ExcludedMap(), Sat: docs.Satisfiable,
+		Avoid: c.Avoid, Excluded: c.ExcludedMap(), Sat: docs.Satisfiable, UntypedAdditional: true,
 	}
 }
 
